@@ -73,6 +73,18 @@ static void st(const G2Affine& a) {
     put(buf, 193);
 }
 
+// Affine OUTPUT objects start dirty but VALID (the infinity flag is a bool, so junk bytes would make the driver itself the source of an
+// invalid-bool load): by turns all-zero, "the identity with arbitrary coordinates", and some other real point.  What a call writes
+// must not depend on what its destination held before.
+static unsigned g_dirty_aff;
+template <typename A> static void dirty_affine(A& a) {
+    switch (g_dirty_aff++ % 3) {
+    case 0: memset(&a, 0, sizeof a); break;
+    case 1: memset(&a, 0x5a, sizeof a); a.infinity = true; break;
+    default: a.copy(A::generator); break;
+    }
+}
+
 #define OP(name) if (!strcmp(op, name))
 
 static void poison(void* p, size_t n) { memset(p, 0xA5, n); }
@@ -448,7 +460,7 @@ static bool capi_ops(const char* op) {
         int c = (int) argi(1), chk = (int) argi(2);
         size_t n = c ? 48 : 96;
         uint8_t* buf_raw; uint8_t* buf = heapbuf(n, &buf_raw); unhex(arg(3), buf, n);   // exact-size heap buffer: over-reads are ASan-visible
-        memset(&po1, 0, sizeof po1);
+        dirty_affine(po1);
         bool ok = embedded_pairing_bls12_381_g1_unmarshal(CG1A(&po1), buf, c != 0, chk != 0);
         free(buf_raw);
         puti(ok); if (ok) st(po1); return true;
@@ -457,7 +469,7 @@ static bool capi_ops(const char* op) {
         int c = (int) argi(1), chk = (int) argi(2);
         size_t n = c ? 96 : 192;
         uint8_t* buf_raw; uint8_t* buf = heapbuf(n, &buf_raw); unhex(arg(3), buf, n);
-        memset(&po2, 0, sizeof po2);
+        dirty_affine(po2);
         bool ok = embedded_pairing_bls12_381_g2_unmarshal(CG2A(&po2), buf, c != 0, chk != 0);
         free(buf_raw);
         puti(ok); if (ok) st(po2); return true;
@@ -468,7 +480,7 @@ static bool capi_ops(const char* op) {
         int c = (int) argi(1);
         size_t n = c ? 48 : 96;
         uint8_t* buf_raw; uint8_t* buf = heapbuf(n, &buf_raw); unhex(arg(2), buf, n);
-        memset(&po1, 0, sizeof po1); memset(&pb1, 0, sizeof pb1);
+        dirty_affine(po1); dirty_affine(pb1);
         bool okc = embedded_pairing_bls12_381_g1_unmarshal(CG1A(&po1), buf, c != 0, true);
         bool oku = embedded_pairing_bls12_381_g1_unmarshal(CG1A(&pb1), buf, c != 0, false);
         free(buf_raw);
@@ -482,7 +494,7 @@ static bool capi_ops(const char* op) {
         int c = (int) argi(1);
         size_t n = c ? 96 : 192;
         uint8_t* buf_raw; uint8_t* buf = heapbuf(n, &buf_raw); unhex(arg(2), buf, n);
-        memset(&po2, 0, sizeof po2); memset(&pb2, 0, sizeof pb2);
+        dirty_affine(po2); dirty_affine(pb2);
         bool okc = embedded_pairing_bls12_381_g2_unmarshal(CG2A(&po2), buf, c != 0, true);
         bool oku = embedded_pairing_bls12_381_g2_unmarshal(CG2A(&pb2), buf, c != 0, false);
         free(buf_raw);
@@ -505,10 +517,25 @@ static bool capi_ops(const char* op) {
         st(e); puti(embedded_pairing_bls12_381_g2prepared_is_zero((embedded_pairing_bls12_381_g2prepared_t*) prep));
         free(prep); return true;
     }
+    OP("prepare_reuse") {
+        // prepare_reuse <g2 affine PREV> <g2 affine Q> <g1 affine P>: one G2Prepared object is prepared from PREV and then from Q; it must
+        // end up identical to a fresh object prepared from Q, and pair like it.  Output: same(0/1) e(P, reused) cursor-independent
+        G2Affine prev; ld(1, prev); ld(2, pa2); ld(3, pa1);
+        G2Prepared* x = (G2Prepared*) malloc(sizeof(G2Prepared)); G2Prepared* y = (G2Prepared*) malloc(sizeof(G2Prepared));
+        memset(x, 0x5a, sizeof *x); x->infinity = false; memset(y, 0xc3, sizeof *y); y->infinity = true;
+        embedded_pairing_bls12_381_g2prepared_prepare((embedded_pairing_bls12_381_g2prepared_t*) x, CG2A(&prev));
+        embedded_pairing_bls12_381_g2prepared_prepare((embedded_pairing_bls12_381_g2prepared_t*) x, CG2A(&pa2));
+        y->prepare(pa2);
+        bool same = x->infinity == y->infinity && (x->infinity || memcmp(x->coeffs, y->coeffs, sizeof x->coeffs) == 0);
+        puti(same);
+        embedded_pairing_bls12_381_prepared_pairing(CGT(&e), CG1A(&pa1), (embedded_pairing_bls12_381_g2prepared_t*) x);
+        st(e);
+        free(x); free(y); return true;
+    }
     OP("pairing_proj") {
         // pairing_proj <g1 jacobian> <g2 jacobian> which : representatives with a chosen z are converted by the library, then paired
         G1 pj; G2 qj; ld(1, pj); ld(2, qj); int which = (int) argi(3);
-        memset(&po1, 0xa5, sizeof po1); memset(&po2, 0xa5, sizeof po2);
+        dirty_affine(po1); dirty_affine(po2);
         if (which & 4) { po1.from_projective(pj); po2.from_projective(qj); }
         else { embedded_pairing_bls12_381_g1affine_from_projective(CG1A(&po1), CG1(&pj)); embedded_pairing_bls12_381_g2affine_from_projective(CG2A(&po2), CG2(&qj)); }
         which &= 3;
